@@ -162,8 +162,14 @@ class Walk:
         rng = self.rng
         fs = self.files()
         p = rng.pick(fs) if fs else "f1.txt"
-        choice = rng.below(16)
-        if choice == 0: self.git("reset", "--hard")
+        choice = rng.below(21)
+        dirs = sorted({f.rsplit("/", 1)[0] for f in fs if "/" in f})
+        if choice == 16: self.git("stash", "push", "--", p)                       # stash only one path
+        elif choice == 17 and dirs: self.git("checkout", "--", rng.pick(dirs) + "/")    # directory pathspec, trailing slash
+        elif choice == 18 and dirs: self.git("restore", rng.pick(dirs))                 # directory pathspec, no slash
+        elif choice == 19: self.git("checkout", p)                                  # path checkout without `--`
+        elif choice == 20 and dirs: self.git("stash", "push", "--", rng.pick(dirs) + "/")
+        elif choice == 0: self.git("reset", "--hard")
         elif choice == 1 and len(self.commits) > 1: self.git("reset", "--hard", "HEAD~1")
         elif choice == 2 and len(self.commits) > 1: self.git("reset", "--soft", "HEAD~1")
         elif choice == 3 and len(self.commits) > 1: self.git("reset", "--mixed", "HEAD~1")
